@@ -646,9 +646,12 @@ func (w *vfC15YieldWriter) yield() {
 		runtime.Gosched()
 	}
 }
-func (w *vfC15YieldWriter) Header() http.Header         { w.yield(); return w.ResponseRecorder.Header() }
-func (w *vfC15YieldWriter) Write(b []byte) (int, error) { w.yield(); return w.ResponseRecorder.Write(b) }
-func (w *vfC15YieldWriter) WriteHeader(code int)        { w.yield(); w.ResponseRecorder.WriteHeader(code) }
+func (w *vfC15YieldWriter) Header() http.Header { w.yield(); return w.ResponseRecorder.Header() }
+func (w *vfC15YieldWriter) Write(b []byte) (int, error) {
+	w.yield()
+	return w.ResponseRecorder.Write(b)
+}
+func (w *vfC15YieldWriter) WriteHeader(code int) { w.yield(); w.ResponseRecorder.WriteHeader(code) }
 
 type vfC15YieldBody struct {
 	r io.Reader
